@@ -134,6 +134,14 @@ def check_instance(ctx, info, cyclic, strict=False):
             ctx.report(f"{name} returned {len(routes)} routes but the largest set of pairwise incompatible elements has {len(anti)}", rep); return
     ctx.count("E2_cover_certificate", "certified_optimal")
     opt = len(routes)
+    if cyclic and not node:
+        import voracle_wcover          # the verified exhaustive walk-cover oracle (WalkCoverOracle.min_wcover_is_walk_width) next to the certificate
+        stw = fp.stDiGraph(G, additional_starts=info["starts"], additional_ends=info["ends"])
+        if voracle_wcover.in_reach(stw, need, opt):
+            vk = voracle_wcover.verified_min_cover(ctx, stw, need, opt)
+            ctx.count("E2_cover_certificate", "verified_walk_cover_oracle_decided")
+            if vk != opt:
+                ctx.report(f"{name} returned {opt} walks; the verified exhaustive walk-cover oracle says the minimum (<= {opt}) is {vk}", rep, concrete=False)
     if not cyclic and not node:
         # the same certificate decided by the EXTRACTED VERIFIED checker Cover.certificate_ok (theorem
         # C09_checked_certificate_proves_the_optimum): cover = the implementation's paths in the s-t graph, antichain = A
